@@ -6,6 +6,8 @@ coordinate images for the interpolating orders, and extract/write-back round tri
 """
 import numpy as np
 
+from vf.tx import amax as _amax
+
 from vf.core import Workload
 from vf import taps, gen
 from vf.digest import digest
@@ -99,14 +101,14 @@ class CropMonitor(taps.Monitor):
             ctx.fail("crop_lost_landmark_groups", cls=cls)
         else:
             for k, p in st["lms"].items():
-                if np.abs(got_lms[k] - (p - clo)).max() > 1e-9:
+                if _amax(got_lms[k] - (p - clo)) > 1e-9:
                     ctx.fail("landmarks_not_shifted_by_the_crop_minimum", cls=cls, mech=nd)
         if "mask" in st:
             if not np.array_equal(res.mask.pixels, st["mask"][sl]):
                 ctx.fail("mask_not_cropped_like_the_pixels", cls=cls, mech=nd)
         if tr is not None:
             p = np.array([[0.0] * len(shape), [1.0] * len(shape), list(map(float, range(len(shape))))])
-            if np.abs(np.asarray(tr.apply(p)) - (p + clo)).max() > 1e-9:
+            if _amax(np.asarray(tr.apply(p)) - (p + clo)) > 1e-9:
                 ctx.fail("returned_transform_does_not_map_crop_to_source_coordinates", cls=cls)
         ctx.see("crop_kinds", (cls, nd, str(st["px"].dtype), side or "inside", st["cons"]))
 
@@ -424,7 +426,7 @@ def w_patches(ctx, rng, i):
             ctx.err("affine_coordinate_patch", e)
             ctx.tap("affine_coordinate_patches", "calls"); ctx.tap("affine_coordinate_patches", "checked")
             # order 1 reproduces an affine function exactly; the cubic spline's boundary conditions leave a small residual
-            if e > (1e-7 * max(1.0, np.abs(px).max()) if order == 1 else 0.01):
+            if not (e <= (1e-7 * max(1.0, np.abs(px).max()) if order == 1 else 0.01)):
                 ctx.fail("interpolated_patches_do_not_sample_the_requested_coordinates", cls="Image", mech="%dch:order%d" % (C, order), err=e)
     ctx.count_case(("patch", cls, C, np.dtype(dt).name, (ph, pw), ck, offs is not None, order, mode), nontrivial=(ck != "interior" or offs is not None),
                    sample={"cls": cls, "channels": C, "patch_shape": [ph, pw], "centres": ck, "order": order, "mode": mode} if i < 5 else None)
